@@ -33,3 +33,17 @@ func (h *Handler) VerifAttach(streamID uint64, remoteID identity.AgentID, conn n
 		h.readLoop(ac)
 	}()
 }
+
+// VerifSessionKeys returns the key bytes of every session key this handler
+// currently holds.
+func (h *Handler) VerifSessionKeys() [][crypto.KeySize]byte {
+	h.mu.RLock()
+	defer h.mu.RUnlock()
+	var out [][crypto.KeySize]byte
+	for _, ac := range h.connections {
+		if ac.sessionKey != nil {
+			out = append(out, ac.sessionKey.VerifKeyBytes())
+		}
+	}
+	return out
+}
